@@ -241,6 +241,9 @@ class Reconcile:
                         slice = child_parent.get_slice(child_idx, child_idx - start + end, None,
                                                        trivia=self.trivia_fst_get)
 
+                        if not slice.verify(raise_=False):  # an AST under these nodes was changed after it was parsed, the source does not say what the AST says
+                            raise ValueError('modified')
+
                     except Exception:  # verification failed, need to do one AST at a time
                         pass
 
@@ -321,6 +324,9 @@ class Reconcile:
 
                         slice = child_parent.get_slice(child_idx, child_off_idx + end, child_field,
                                                        trivia=self.trivia_fst_get)
+
+                        if not slice.verify(raise_=False):  # an AST under these nodes was changed after it was parsed, the source does not say what the AST says
+                            raise ValueError('modified')
 
                     except Exception:  # verification failed, need to do one AST at a time
                         pass
